@@ -4317,13 +4317,11 @@ impl<'a> Tyck<'a> for TyEnvT<su::TermId> {
                 }
             }
             | Tm::Var(def) => {
-                let annotation =
-                    tycker.statics.annotations_var.get(&def).copied().unwrap_or_else(|| {
-                        panic!(
-                            "resolved variable `{}` reached the checker before its binder",
-                            tycker.def_name(&def).plain()
-                        )
-                    });
+                let Some(annotation) = tycker.statics.annotations_var.get(&def).copied() else {
+                    // A binder whose own classifier mentions it (`def D : D = ..`) is
+                    // reached before it has an annotation.
+                    tycker.err_k(TyckError::MissingAnnotation, std::panic::Location::caller())?
+                };
                 let ann = {
                     match switch {
                         | Switch::Syn => annotation,
